@@ -21,7 +21,7 @@ CORPUS = [
 
 def pseudo_value(depth, r, datetime):
     k = r.random()
-    s = r.choice(["1", "42", "-7", "1.5", "2e3", "true", "False", "True", "TRUE", "FALSE", "+3", " 5 ", "1_000", ".5", "-Infinity", "nan"] + (["2020-01-02", "12:30:45", "2020-01-02T03:04:05"] if datetime else []))
+    s = r.choice(["1", "42", "-7", "1.5", "2e3", "true", "False", "True", "TRUE", "FALSE", "+3", " 5 ", "1_000", ".5", "-Infinity", "nan", "", "", "1" * 40] + (["2020-01-02", "12:30:45", "2020-01-02T03:04:05"] if datetime else []))
     if depth <= 0 or k < 0.4:
         return s
     if k < 0.55:
